@@ -1192,36 +1192,71 @@ class DomainMapping(CanBehaveLikeAVariable[T], ABC):
         sources = sources or {}
 
         self._eval_parent_ = parent
+        # decided once per evaluation: the same node may be evaluated in another position (e.g. as an operand of a
+        # comparison) before this generator is resumed, which moves the evaluation parent
+        is_condition = (
+            isinstance(self._parent_, LogicalOperator)
+            or self is self._conditions_root_
+        )
 
         if self._id_ in sources:
-            yield OperationResult(sources, self._is_false_, self)
+            yield OperationResult(
+                sources,
+                self._truth_flag_for_(sources[self._id_], is_condition),
+                self,
+            )
             return
 
         yield from (
             self._build_operation_result_and_update_truth_value_(
-                child_result, mapped_value
+                child_result, mapped_value, is_condition
             )
             for child_result in self._child_._evaluate__(sources, parent=self)
             for mapped_value in self._apply_mapping_(child_result[self._child_._id_])
         )
 
     def _build_operation_result_and_update_truth_value_(
-        self, child_result: OperationResult, current_value: Any
+        self,
+        child_result: OperationResult,
+        current_value: Any,
+        is_condition: Optional[bool] = None,
     ) -> OperationResult:
         """
         Set the current truth value of the operation result, and build the operation result to be yielded.
 
         :param child_result: The current result from the child operation.
         :param current_value: The current value of this operation that is derived from the child result.
+        :param is_condition: Whether this evaluation of the node is in the position of a condition.
         :return: The operation result.
         """
-        if isinstance(self._parent_, LogicalOperator) or self is self._conditions_root_:
-            self._is_false_ = not bool(current_value)
         return OperationResult(
             {**child_result.bindings, self._id_: current_value},
-            self._is_false_,
+            self._truth_flag_for_(current_value, is_condition),
             self,
         )
+
+    def _truth_flag_for_(
+        self, current_value: Any, is_condition: Optional[bool] = None
+    ) -> bool:
+        """
+        The false-flag of a result of this node: where the node is itself a condition it is the truth value of
+        its value; as an operand (e.g. of a comparison) a falsy value is a value like any other, whatever flag
+        another position of the same node left behind.
+
+        :param current_value: The value of this node in the result.
+        :param is_condition: Whether this evaluation of the node is in the position of a condition (decided from
+         the current evaluation parent if not given).
+        :return: True if the result is to be reported as false.
+        """
+        if is_condition is None:
+            is_condition = (
+                isinstance(self._parent_, LogicalOperator)
+                or self is self._conditions_root_
+            )
+        if is_condition:
+            self._is_false_ = not bool(current_value)
+            return self._is_false_
+        return False
 
     @abstractmethod
     def _apply_mapping_(self, value: HashedValue) -> Iterable[HashedValue]:
